@@ -147,7 +147,7 @@ func H_C08_Process() {
 	if verifParam("FAULTS") == 1 {
 		verifFSFaults(true)
 	}
-	data := nondetString()
+	data := nondetText()
 	e := &Event{Type: "t", Formatted: map[string][]byte{}}
 	have := nondetBool()
 	key := "json"
@@ -294,7 +294,7 @@ func H_C08_Reopen() {
 	if err != nil {
 		return
 	}
-	data := nondetString()
+	data := nondetText()
 	e := &Event{Type: "t", Formatted: map[string][]byte{"json": []byte(data), "custom": []byte(data)}}
 	_, perr := s.Process(context.Background(), e)
 	verifAssert(perr == nil, "C08.reopen.process-ok")
@@ -323,7 +323,7 @@ func H_C13_file_specials() {
 	fsInit()
 	verifCaptureStd()
 	s := &FileSink{FileName: "x.log"}
-	data := nondetString()
+	data := nondetText()
 	e := &Event{Type: "t", Formatted: map[string][]byte{"json": []byte(data)}}
 	switch symLen(0, 2) {
 	case 0:
